@@ -237,6 +237,13 @@ pub fn relative_values(orig: &BigUint, is_hex: bool) -> Vec<(String, BigUint)> {
                 v.push((l.to_string(), x));
             }
         }
+        // exponent aliases: 2^x is unchanged when x moves by a multiple of the order of 2
+        for m in [1u8, 3] {
+            let x = orig + vcommon::ord2() * BigUint::from(m);
+            if x < prime() {
+                v.push((format!("orig+{m}*ord(2)"), x));
+            }
+        }
     }
     v
 }
